@@ -351,6 +351,18 @@ Definition cond_helper (name : bytes) (args : list argval) : option bool :=
 
 Definition n_static : bytes := ["s";"t";"a";"t";"i";"c"]%byte.
 
+(* the if-ok helper of the harness: vok(x) hands out a copy of x's text (nil when there is none)
+   and reports whether that text is non-empty *)
+Definition n_vok : bytes := ["v";"o";"k"]%byte.
+Definition vok_result (bufLC : list Z) (args : list argval) : value * bool :=
+  match args with
+  | a :: _ => match text_of bufLC (arg_value a) with
+              | Some ((_ :: _) as t) => (VBytes t, true)
+              | _ => (VNil, false)
+              end
+  | [] => (VNil, false)
+  end.
+
 Definition cond_known (name : bytes) : bool :=
   bytes_eqb name n_lenEq0 || bytes_eqb name n_lenGt0 || bytes_eqb name n_lenGtq0.
 
@@ -698,6 +710,27 @@ Section Interp.
         let '(c1, b, e) := node_cmp flits c (cL ci) (cR ci) (cSL ci) (cSR ci) (cOp ci) in take c1 b e
       end
 
+    | NCondOK k ci child =>
+      match cHlp ci with
+      | [] => Out c w None
+      | _ :: _ =>
+        if bytes_eqb (cHlp ci) n_vok then
+          if bytes_eqb (oIns k) n_static then
+            let (c1, args) := collect_args c (cHlpArg ci) in
+            let (v, okb) := vok_result (bufLC c1) args in
+            let c2 := set_bufB okb (ctx_set_static (oR k) (VBool okb) (ctx_set (oL k) v true c1)) in
+            (* the extended condition (!ok) is an ordinary comparison; its error survives only
+               when no branch is evaluated *)
+            let '(c3, r, e) := match cR ci with
+                               | [] => (c2, okb, None)
+                               | _ :: _ => node_cmp flits c2 (cL ci) (cR ci) (cSL ci) (cSR ci) (cOp ci)
+                               end in
+            if r then match child with ch :: _ => write_node ch c3 w | [] => Out c3 w e end
+            else match child with _ :: ch :: _ => write_node ch c3 w | _ => Out c3 w e end
+          else Unsupported
+        else Out c w (Some ECondHlpNotFound)
+      end
+
     | NBlock _ _ child => walk_with write_node child c w false
 
     | NLoopCount cnt init lim sep initS limS condOp cntOp child =>
@@ -814,7 +847,6 @@ Section Interp.
       end
 
     | NExit => Out c w (Some EInterrupt)
-    | NOther 3 => Unsupported                 (* typeCondOK (if-ok with helper): not modelled *)
     | NOther _ => Out c w (Some EUnknownCtl)
     end.
 
